@@ -89,6 +89,18 @@ def run_sequences(out, stream, n_ports, seqs):
         return res
     io = asyncio.run(go())
     mo = lib.run_model([lib.req("bridge", list(range(n_ports)), [[k, i] for k, i in s]) for s in seqs])
+    # real sockets: a port can be taken by another process between two probes.  A sequence whose trace differs from the model's or
+    # fails the Spec is run once more on fresh ports; only what reproduces is reported
+    suspect = [k for k in range(len(seqs)) if io[k] != mo[k] or spec_judge(n_ports, io[k]) != "ok"]
+    if suspect:
+        async def again():
+            res = {}
+            for k in suspect[:40]:
+                ports = world.free_udp_ports(n_ports); res[k] = await run_seq(ports, seqs[k])
+            return res
+        for k, t in asyncio.run(again()).items():
+            if t != io[k]:
+                out.notes.append("sequence %s gave %s, then %s on fresh ports: not reproducible, second run kept" % (seqs[k], io[k], t)); io[k] = t
     cases = [{"ports": n_ports, "acts": [list(a) for a in s]} for s in seqs]
     names = ["start", "stop", "occupy", "release", "send"]
     lib.differential(out, stream, cases, io, mo, ["ok"] * len(cases), lambda c: "%d ports: " % c["ports"] + ", ".join(names[k] + ("" if k < 2 else " %d" % i) for k, i in c["acts"]),
